@@ -99,7 +99,10 @@ func (m *Matcher) Loop() {
 		cancelled := false
 		count := CountItems(request.chunks)
 
-		if !cacheCleared {
+		if cacheCleared {
+			// The cached mergers are gone; results cached from now on are for this count
+			prevCount = count
+		} else {
 			if count == prevCount {
 				// Look up mergerCache
 				if cached, found := m.mergerCache[patternString]; found && cached.final == request.final {
